@@ -138,7 +138,10 @@ def _run_op(k, prs):
 
     def onalarm(sig, frm):
         raise _Timeout()
+    # the per-program limit counts CPU time of this process (a machine shared with other jobs must not turn a slow
+    # program into a verdict); a wall-clock alarm ten times as long only bounds a program that sleeps
     signal.signal(signal.SIGALRM, onalarm)
+    signal.signal(signal.SIGVTALRM, onalarm)
     ops = api_table.load()
     o = ops[k - 1]
     limit = 240 if o.heavy else 60
@@ -146,7 +149,8 @@ def _run_op(k, prs):
     out_recs = []
 
     def guarded(*a, **kw):
-        signal.alarm(limit)
+        signal.setitimer(signal.ITIMER_VIRTUAL, limit)
+        signal.alarm(10 * limit)
         try:
             return execute(o, *a, **kw)
         except _Timeout:
@@ -154,6 +158,7 @@ def _run_op(k, prs):
         except MemoryError:
             return {"changed": [], "exc": "MemoryError", "same": True}, None
         finally:
+            signal.setitimer(signal.ITIMER_VIRTUAL, 0)
             signal.alarm(0)
     for (_, share, ro, cbm, dt) in prs:
         fun = "const" if cbm == "cached" else "ident"
@@ -233,7 +238,7 @@ def run(tier: str) -> int:
         jobs = [(k, pool.apply_async(_run_op, (k, prs))) for k, prs in sorted(by_op.items())]
         for k, job in jobs:
             try:
-                recs = job.get(timeout=1500)
+                recs = job.get(timeout=6000)
             except Exception as ex:  # noqa: BLE001  child died (memory limit, crash)
                 recs = [{"k": k, "share": list(sh), "ro": ro, "cb": cbm, "dt": dt, "changed": [], "exc": "child-" + type(ex).__name__,
                          "same": True, "basexc": ""} for (_, sh, ro, cbm, dt) in by_op[k]]
